@@ -127,7 +127,7 @@ def event(op, m=None, b=b'', kind='', d=None, rt=False, secret=''):
 def do_dumps(m, encoding, bit_config, hex_bitmap):
     m0 = copy.deepcopy(m)
     try:
-        with Watchdog(3.0):
+        with Watchdog(5.0):
             b = iso8583.dumps(copy.deepcopy(m), encoding=encoding, iso_config=bit_config, hex_bitmap=hex_bitmap)
     except BaseException as ex:  # noqa
         o = exc_outcome(ex)
@@ -141,7 +141,7 @@ def do_dumps(m, encoding, bit_config, hex_bitmap):
     return event('dumps', m0, b, 'ok'), bytes(b)
 
 
-def do_loads(b, encoding, bit_config, hex_bitmap, rt=False, secs=2.0, secret=''):
+def do_loads(b, encoding, bit_config, hex_bitmap, rt=False, secs=4.0, secret=''):
     try:
         with Watchdog(secs):
             d = iso8583.loads(b, encoding=encoding, iso_config=bit_config, hex_bitmap=hex_bitmap)
@@ -208,6 +208,7 @@ def ricc(r):
     out = b''
     for _ in range(r.randrange(1, 6)):
         tag = r.choice((b'\x9f\x26', b'\x9f\x27', b'\x82', b'\x95', b'\x5f\x2a', b'\x9a', b'\x9f\x36', b'\x84',
+                        b'\xbf', b'\xdf', b'\x1f', b'\x7f', b'\xff', b'\x3f',      # one-byte tags here (only 9F / 5F start two-byte tags)
                         bytes([r.choice([x for x in range(1, 256) if x not in (0x9f, 0x5f)])])))
         val = bytes(r.randrange(256) for _ in range(r.choice((0, 1, 2, 8, r.randrange(0, 40)))))
         out += tag + bytes([len(val)]) + val
